@@ -86,7 +86,7 @@ CLAIMED = {
              "view-locality, commutation with transforms) are evaluated on the implementation.",
         note="Partial: the theorems require every subpath to begin with its own move; for other paths the statement is false of the code "
              "(known finding C16-subpath-without-move, witnessed each run). The "
-             "two-index swap loop of _reverse_segments is modelled by its result (reverse order of reversed segments) and validated by correspondence, not proved. Arc traversal uses the evaluator decided by C02/C05.",
+             "two-index swap loop of _reverse_segments is modelled as a loop (Model/Reverse.swapLoop, the function the driver runs) and proved to compute the reversed list of reversed segments (C16_swap_loop_is_reversal). Arc traversal uses the evaluator decided by C02/C05.",
         technique="Lean 4 proof (ring identities; list induction over chains with reverse/append lemmas) + differential correspondence (exhaustive kind sequences) + relation oracle on the implementation",
         ref="DESIGN.md §4 C16"),
     "C04": dict(
